@@ -241,7 +241,7 @@ impl <N: Numeric> Array<N> {
         let chunk_size = self.shape[last_dim] * self.shape[second_last_dim];
 
         let elements = self.elements
-            .chunks(chunk_size)
+            .chunks(chunk_size.max(1))
             .flat_map(|chunk| {
                 chunk
                     .iter()
